@@ -7,7 +7,8 @@ import inspect
 import os
 from dataclasses import dataclass, field
 
-from .monitors import HUB, Event, graph_state, hierarchy_problems, trace_of, truth_from_state, _wrap_fluent, _purity
+from .budget import StepBudgetExceeded, step_budget
+from .monitors import HUB, Event, graph_state, hierarchy_problems, trace_of, truth_from_state, _wrap_fluent, _purity, RULE_BUDGET, SCAN_BUDGET
 from .refmodel import scan as rscan
 
 
@@ -70,7 +71,13 @@ def _wrap_scan():
         from . import monitors_trace
 
         try:
-            ev = orig(*args, **kwargs)
+            with step_budget(SCAN_BUDGET):
+                ev = orig(*args, **kwargs)
+        except StepBudgetExceeded as e:
+            owner = getattr(HUB, "scan_crash_owner", None) or "C04"
+            HUB.scan_events.append(ScanEvent(a, "error", "StepBudgetExceeded", str(e)))
+            HUB.violation(owner, "scan-does-not-terminate", f"get_evaluable_architecture exhausted its step budget ({e})", {"args": _plain_args(a)})
+            raise RuntimeError(f"step budget exhausted: {e}") from None
         except Exception as e:  # noqa: BLE001
             HUB.scan_events.append(ScanEvent(a, "error", type(e).__name__, str(e)))
             monitors_trace.judge_entry_point(a, "error", type(e).__name__)
@@ -249,10 +256,14 @@ def _wrap_layer_rule_assert():
         before = graph_state(evaluable)
         exc = None
         try:
-            orig(self, evaluable)
+            with step_budget(RULE_BUDGET):
+                orig(self, evaluable)
             outcome, msg, et = "pass", None, None
         except AssertionError as e:
             exc, outcome, msg, et = e, "fail", str(e), "AssertionError"
+        except StepBudgetExceeded as e:
+            exc, outcome, msg, et = RuntimeError(f"step budget exhausted: {e}"), "error", str(e), "StepBudgetExceeded"
+            HUB.violation("C05", "evaluation-does-not-terminate", f"LayerRule.assert_applies exhausted its step budget ({e})", {"cfg": cfg})
         except Exception as e:  # noqa: BLE001
             exc, outcome, msg, et = e, "error", str(e), type(e).__name__
         entry[2] = "ok" if exc is None else et
@@ -373,7 +384,11 @@ def _wrap_puml_parse():
             return orig(self, file_path)
         exc = None
         try:
-            res = orig(self, file_path)
+            with step_budget(RULE_BUDGET):
+                res = orig(self, file_path)
+        except StepBudgetExceeded as e:
+            exc, res = RuntimeError(f"step budget exhausted: {e}"), None
+            HUB.violation("C06", "parse-does-not-terminate", f"PumlParser.parse exhausted its step budget ({e})", {"file": str(file_path)})
         except Exception as e:  # noqa: BLE001
             exc, res = e, None
         try:
@@ -461,10 +476,14 @@ def _wrap_diagram_rule():
         before = graph_state(evaluable)
         exc = None
         try:
-            orig(self, evaluable)
+            with step_budget(RULE_BUDGET * 4):
+                orig(self, evaluable)
             outcome, msg, et = "pass", None, None
         except AssertionError as e:
             exc, outcome, msg, et = e, "fail", str(e), "AssertionError"
+        except StepBudgetExceeded as e:
+            exc, outcome, msg, et = RuntimeError(f"step budget exhausted: {e}"), "error", str(e), "StepBudgetExceeded"
+            HUB.violation("C07", "evaluation-does-not-terminate", f"DiagramRule.assert_applies exhausted its step budget ({e})", {"cfg": cfg})
         except Exception as e:  # noqa: BLE001
             exc, outcome, msg, et = e, "error", str(e), type(e).__name__
         entry[2] = "ok" if exc is None else et
@@ -635,7 +654,11 @@ def _wrap_draw():
         n0 = len(HUB.draw_calls)
         exc = None
         try:
-            orig_vis(self, **kwargs)
+            with step_budget(RULE_BUDGET):
+                orig_vis(self, **kwargs)
+        except StepBudgetExceeded as e:
+            exc = RuntimeError(f"step budget exhausted: {e}")
+            HUB.violation("C17", "visualize-does-not-terminate", f"visualize exhausted its step budget ({e})", {})
         except Exception as e:  # noqa: BLE001
             exc = e
         try:
